@@ -471,3 +471,56 @@ def hole_contact_pair(rng):
     else: B = ('MPT', [c1, c3]); lab = 'points-on-hole-edge'
     if on_shell: lab = lab.replace('hole', 'shell')
     return A, B, lab
+
+
+def long_line(rng, n, direction, start, step, jitter=0):
+    """a polyline with n vertices running in `direction` ((1,0), (0,1), (1,1), ...) from `start` in steps of `step` units"""
+    pts = []
+    x, y = start
+    for i in range(n):
+        j = M * rng.randint(-jitter, jitter) if jitter else 0
+        pts.append((x + (j if direction[0] == 0 else 0), y + (j if direction[1] == 0 else 0)))
+        x += direction[0] * step; y += direction[1] * step
+    return pts
+
+
+def long_lines_case(rng):
+    """several lines with MORE THAN 20 vertices (OverlayNG limits such lines to the clip envelope with one LineLimiter) against a
+    small area or another long line: the lines start / end inside and far outside the other operand's envelope; returns
+    (list of long lines, small polygon)"""
+    s = M * rng.randint(3, 6)                       # half size of the small polygon
+    P = ('PG', [ring_rect(-s, -s, s, s)]) if rng.random() < 0.6 else ('PG', [[(-s, -s), (s, -s // 2 // M * M), (s // 2 // M * M, s), (-s, s // 2 // M * M), (-s, -s)]])
+    lines = []
+    for k in range(rng.randint(2, 3)):
+        n = rng.randint(21, 34)
+        d = rng.choice([(1, 0), (0, 1), (1, 0), (0, 1), (1, 1), (-1, 0), (0, -1)])
+        step = M * rng.randint(1, 2)
+        across = M * rng.randint(-2, 2)                 # offset of the line from the centre, across its direction
+        # where along the line the polygon sits: the line starts far before it, inside it, or ends inside / far beyond it
+        lead = rng.choice([n // 2, n // 2, 1, n - 3, n // 3]) * step
+        if d == (1, 0): st = (-lead, across)
+        elif d == (-1, 0): st = (lead, across)
+        elif d == (0, 1): st = (across, -lead)
+        elif d == (0, -1): st = (across, lead)
+        else: st = (-lead + across, -lead)
+        lines.append(long_line(rng, n, d, st, step, jitter=rng.choice([0, 0, 1])))
+    return lines, P
+
+
+def nested_donuts(rng, depth=3):
+    """donut inside the hole of a donut inside ... (`depth` levels, none touching), outermost first"""
+    out = []
+    a = M * rng.randint(20, 26)
+    cx, cy = M * rng.randint(-2, 2), M * rng.randint(-2, 2)
+    for k in range(depth):
+        w = M * rng.randint(1, 2)                      # ring thickness
+        b = a - w
+        shell = ring_rect(cx - a, cy - a, cx + a, cy + a); hole = ring_rect(cx - b, cy - b, cx + b, cy + b)[::-1]
+        if rng.random() < 0.3:                         # an octagonal shell instead of a square one
+            c = M
+            shell = [(cx - a + c, cy - a), (cx + a - c, cy - a), (cx + a, cy - a + c), (cx + a, cy + a - c), (cx + a - c, cy + a), (cx - a + c, cy + a),
+                     (cx - a, cy + a - c), (cx - a, cy - a + c), (cx - a + c, cy - a)]
+        out.append([shell, hole])
+        a = b - M * rng.randint(1, 2)
+        if a - 2 * M <= M: break
+    return out
